@@ -26,7 +26,7 @@ pub mod c10;
 
 /// run the real code for one request; None = unknown function
 pub fn run(r: &Req) -> Option<String> {
-    c07pl::run(r).or_else(|| c01::run(r)).or_else(|| c02::run(r)).or_else(|| c04::run(r)).or_else(|| c16::run(r)).or_else(|| c15::run(r)).or_else(|| c11::run(r)).or_else(|| c20::run(r)).or_else(|| c18::run(r)).or_else(|| c17::run(r)).or_else(|| c12::run(r)).or_else(|| c13::run(r)).or_else(|| c09::run(r)).or_else(|| c03::run(r)).or_else(|| c14::run(r)).or_else(|| c19::run(r)).or_else(|| c06::run(r)).or_else(|| c07::run(r)).or_else(|| c08::run(r)).or_else(|| c10::run(r))
+    c07pl::run(r).or_else(|| c05::run(r)).or_else(|| c01::run(r)).or_else(|| c02::run(r)).or_else(|| c04::run(r)).or_else(|| c16::run(r)).or_else(|| c15::run(r)).or_else(|| c11::run(r)).or_else(|| c20::run(r)).or_else(|| c18::run(r)).or_else(|| c17::run(r)).or_else(|| c12::run(r)).or_else(|| c13::run(r)).or_else(|| c09::run(r)).or_else(|| c03::run(r)).or_else(|| c14::run(r)).or_else(|| c19::run(r)).or_else(|| c06::run(r)).or_else(|| c07::run(r)).or_else(|| c08::run(r)).or_else(|| c10::run(r))
 }
 
 /// (request lines, whether the enumerated part was exhaustive over its stated bounds)
